@@ -9,6 +9,9 @@ CHECKS = {
  "C01": ("model_checking", "explicit-state BFS over the real registration API (E1) with a reference predicate evaluated on every transition",
          "Every history of operator actions and every well-signed fetch shape from the pool (up to 576 per state) is executed on a clone of the real server store; credentials may be issued only if (a), (b) or (c) of the property holds in the pre-state, unauthorized requests must leave the set of node records unchanged, and issued credentials must open only with the requesting encryption key and echo the request's nonce. Quick: reduced menus to depth 3; thorough: full menus to fixpoint.",
          "Signature forgery is outside the model ('forged' = assembled from other pool members). The canonical state key drops fields no transition or oracle reads (server encryption key, bundles, state).", "6/C01", "E1"),
+ "C03": ("exploration", "bounded-exhaustive input/configuration enumeration (E4) against a reference predicate, with a recording store",
+         "Every single-bit flip and truncation of bundle and signature, 81 window placements x 49 skew pairs (exact ties and +-1ns included) under a frozen and a ticking virtual clock, 11 missing-field variants and node-created requests at boundary ages are sent through AuthorizeNode and FetchNodeCredentials in every enrollment mode; a request outside the widened window or failing authentication must be rejected with zero storage calls, a request inside it must be processed, and node-created requests carry exactly now..now+24h.",
+         "Random multi-byte mutations are not claimed. Exact ties are not judged.", "6/C03", "E4"),
  "C05": ("exploration", "bounded-exhaustive configuration/input product (E4) against a reference predicate on the real GenerateServerCertificates",
          "The complete product of lookup path, ordered record list under the node id (valid record first / middle / last / absent), claimed key, nonce signer, client-state signer and skip flag (4800 calls) is executed; success must coincide with 'verification waived by the local caller or some record in the lookup result verifies nonce and client state', failures must return no response, successes must echo the submitted state.",
          "A forged signature is one by another pool key or a missing one.", "6/C05", "E4"),
